@@ -1,5 +1,4 @@
 import Geo.Props.C13
-open Geo
-#print axioms T13_from_points_contains
-#print axioms T13_ellipse_locus
-#print axioms T13_sphere_locus
+#print axioms Geo.T13_from_points_contains
+#print axioms Geo.T13_ellipse_locus
+#print axioms Geo.T13_sphere_locus
